@@ -8,6 +8,8 @@ func init() {
 		Fixtures:    []string{"a3", "u", "w"},
 		Run:         runC20,
 		SelfTest: []Mutation{
+			{Name: "translated object shifts the caller's ray in place", File: "render3d/transform.go",
+				Old: "\treturn t.Object.Cast(&model3d.Ray{\n\t\tOrigin:    r.Origin.Sub(t.Offset),\n\t\tDirection: r.Direction,\n\t})", New: "\tr.Origin = r.Origin.Sub(t.Offset)\n\treturn t.Object.Cast(r)", Rule: "Q.OBJ", Expect: "translatedObject"},
 			{Name: "auto-framing searches with the default field of view (defect repaired in d329c16)", File: "render3d/helpers.go",
 				Old: "cam := NewCameraAt(center.Add(direction.Scale(d)), center, fov)", New: "cam := NewCameraAt(center.Add(direction.Scale(d)), center, helperFieldOfView)", Rule: "CALLAGREE", Expect: "DirectionalCamera"},
 			{Name: "transformed object hands back a stretched normal", File: "render3d/transform.go",
